@@ -121,19 +121,29 @@ func (p *RunnableProcessor) Process(ctx context.Context, records []opencdc.Recor
 				outRecs[i] = sdk.SingleRecord(rec)
 			}
 		} else if len(passthroughRecordIndexes) > 0 {
-			tmp := make([]sdk.ProcessedRecord, len(outRecs)+len(passthroughRecordIndexes))
-			prevIndex := -1
-			for i, index := range passthroughRecordIndexes {
-				// TODO index-i can be out of bounds if the processor returns
-				//  fewer records than the input.
-				copy(tmp[prevIndex+1:index], outRecs[prevIndex-i+1:index-i])
-				tmp[index] = sdk.SingleRecord(records[index])
-				prevIndex = index
+			// Merge the plugin output with the passthrough records in input
+			// order. The plugin may return FEWER results than kept records (a
+			// short result: the rest is to be retried); the merge then stops
+			// right before the first kept record that has no result, instead
+			// of indexing past the output. Anything the plugin returned beyond
+			// the merged prefix (e.g. the condition error appended above) is
+			// kept at the end.
+			evaluated := len(keptRecords) + len(passthroughRecordIndexes)
+			tmp := make([]sdk.ProcessedRecord, 0, evaluated+1)
+			next, pt := 0, 0
+			for i := 0; i < evaluated; i++ {
+				if pt < len(passthroughRecordIndexes) && passthroughRecordIndexes[pt] == i {
+					tmp = append(tmp, sdk.SingleRecord(records[i]))
+					pt++
+					continue
+				}
+				if next == len(outRecs) {
+					break // short output
+				}
+				tmp = append(tmp, outRecs[next])
+				next++
 			}
-			// if the last index is not the last record, copy the rest
-			if passthroughRecordIndexes[len(passthroughRecordIndexes)-1] != len(tmp)-1 {
-				copy(tmp[prevIndex+1:], outRecs[prevIndex-len(passthroughRecordIndexes)+1:])
-			}
+			tmp = append(tmp, outRecs[next:]...)
 			outRecs = tmp
 		}
 	}
